@@ -117,7 +117,7 @@ def run_batch(prop, verif_seed, runs, workers, cap, banned=(), start=0, tier='qu
 
 # ------------------------------------------------------------------------------------ known findings
 def load_known():
-    p = os.path.join(HERE, 'known_findings.json')
+    p = os.environ.get('FXSIM_KNOWN') or os.path.join(HERE, 'known_findings.json')
     if not os.path.exists(p):
         return []
     with open(p) as f:
